@@ -121,7 +121,7 @@ PROPS['C06'] = dict(
 PROPS['C16'] = dict(
     bounded_quick=[('history', 'whole-history behaviour under different open options: the tree layer (split / merge thresholds depend on the page size) is outside the verifier\'s reach; cex/history.rs replays seeded histories under page sizes 1024/1032/3000/4096/16384, 4 or 64 initial pages, strict mode off/on')],
     level='proof',
-    units=['open', 'freelist', 'commit'],
+    units=['open', 'freelist', 'commit', 'split'],
     kani_quick=['frombuf'],
     explanation='Open options: for EVERY page size and page count the builder accepts. OpenOptions::pagesize returns only for sizes >= 1024 that are multiples of 8 (the '
                 'documented panics are modelled as divergence, so removing a check is a failed postcondition), num_pages only for >= 4; OpenOptions::open calls init_file / DBInner::open '
@@ -180,7 +180,7 @@ PROPS['C05'] = dict(
     bounded_quick=[('history', 'Node::split / spill / write / free_page, InnerBucket::merge_nodes / rebalance / spill (Rc<RefCell<Node>> graph, float thresholds), Page::write_node / Node::from_page beyond the bounded Kani codec')],
     level='proof',
     composition='the accounting part of INV (pending pages below the high-water mark, not free, pending once; live pages not free) is preserved by begin/end reader and commit: Verus lemma L2 (contracts/lemmas.vtmpl) under assumptions A1/A2',
-    units=['freelist', 'commit', 'open', 'pagenode', 'lemmas', 'bucketops', 'nodeio'],
+    units=['freelist', 'commit', 'open', 'pagenode', 'lemmas', 'bucketops', 'nodeio', 'split'],
     kani_quick=['layout'],
     kani_thorough=['codec'],
     explanation='Page accounting, allocator and serialisation side (the tree-shape half is outside): the allocator never hands out a page that is pending, already allocated in this transaction or a header page, '
@@ -198,7 +198,7 @@ PROPS['C05'] = dict(
 PROPS['C01'] = dict(
     bounded_quick=[('history', 'Node::split / spill / write / free_page, InnerBucket::merge_nodes / rebalance / spill (Rc<RefCell<Node>> graph, float thresholds), Page::write_node / Node::from_page beyond the bounded Kani codec'), ('cursor', 'Node::split / spill / write / free_page, InnerBucket::merge_nodes / rebalance / spill (Rc<RefCell<Node>> graph, float thresholds), Page::write_node / Node::from_page beyond the bounded Kani codec')],
     level='other',
-    units=['pagenode', 'cursor', 'range', 'guards', 'bucketops', 'bytes'],
+    units=['pagenode', 'cursor', 'range', 'guards', 'bucketops', 'bytes', 'split'],
     kani_quick=['layout'],
     kani_thorough=['codec'],
     explanation='Leaf operations against the mathematical ordered map, for all sizes: Node::insert_data is map insert on a strictly ascending entry sequence (replace on equal key, insert at the sorted position otherwise, '
